@@ -24,7 +24,9 @@ func init() {
 	pkgw := "github.com/tokenized/pkg/wire"
 	builtinModels["(*"+pkgb+".Hash32).Equal"] = modelHashEqual
 	builtinModels["(*"+pkgw+".BlockHeader).BlockHash"] = modelBlockHash
-	builtinModels["(*"+pkgw+".BlockHeader).WorkIsValid"] = modelWorkIsValid
+	inlineDeps["("+pkgw+".BlockHeader).WorkIsValid"] = true
+	builtinModels["("+pkgb+".Hash32).Value"] = modelHashValue
+	builtinMods["("+pkgb+".Hash32).Value"] = []string{bigComp}
 	builtinModels[pkgb+".ConvertToWork"] = modelConvertToWork
 	builtinModels[pkgb+".ConvertToBits"] = modelConvertToBits
 	builtinMods[pkgb+".ConvertToWork"] = []string{bigComp}
@@ -153,28 +155,13 @@ func modelBlockHash(fc *FnCtx, c *ssa.CallCommon, args []Val, rt types.Type) (*V
 	return &Val{T: r, S: SInt, Typ: rt}, nil
 }
 
-// validBits: the domain on which bitcoin.ConvertToDifficulty does not index out of range: the effective byte
-// length (exponent, minus one when the top mantissa byte is zero, modulo 256) must not be 1.
-func validBitsTerm(bits string) string {
-	length := "(div " + bits + " 16777216)"
-	topZero := "(= (mod (div " + bits + " 65536) 256) 0)"
-	eff := "(ite " + topZero + " (mod (- " + length + " 1) 256) " + length + ")"
-	return "(not (= " + eff + " 1))"
-}
-
-func modelWorkIsValid(fc *FnCtx, c *ssa.CallCommon, args []Val, rt types.Type) (*Val, error) {
-	fc.vc.trust("wire.BlockHeader.WorkIsValid(h) = uf.workValid(hashOf(h), h.Bits); it converts h.Bits with ConvertToDifficulty, which panics outside validBits")
-	h := args[0]
-	ht := headerStructType(h)
-	for _, f := range fc.vc.fieldsOf(ht) {
-		fc.getComp(fieldComp(ht, f.name), arraySort(string(f.sort)))
-	}
-	bits := sel(fc.getComp(fieldComp(ht, "Bits"), arraySort("Int")), h.T)
-	fc.safe("convert-bits", validBitsTerm(bits), "ConvertToDifficulty indexes out of range for this bits value (reached through WorkIsValid)")
-	fc.vc.declareFun("uf.workValid", []string{"Int", "Int"}, "Bool")
-	n := fc.vc.fresh("workvalid", "Bool")
-	fc.vc.assert(mkEq(n, "(uf.workValid "+fc.hashOfHeader(fc.cur, h.T, ht)+" "+bits+")"))
-	return &Val{T: n, S: SBool, Typ: types.Typ[types.Bool]}, nil
+func modelHashValue(fc *FnCtx, c *ssa.CallCommon, args []Val, rt types.Type) (*Val, error) {
+	fc.vc.trust("bitcoin.Hash32.Value(h) returns a fresh big.Int with the uninterpreted numeric value uf.hashValue(h) >= 0")
+	fc.vc.declareFun("uf.hashValue", []string{"Int"}, "Int")
+	v := "(uf.hashValue " + args[0].T + ")"
+	fc.vc.assume(fc.cur.reach, "(>= "+v+" 0)")
+	r := fc.newBig(v)
+	return &Val{T: r, S: SInt, Typ: rt}, nil
 }
 
 func (fc *FnCtx) newBig(val string) string {
